@@ -1575,6 +1575,12 @@ evhttp_connection_cb_cleanup(struct evhttp_connection *evcon)
 		return;
 	}
 
+	/* The retries are used up: forget them.  evhttp_make_request() treats a
+	 * non-zero retry_cnt as "a retry timer is pending and will start the
+	 * queue", so with the stale count every later request on this connection
+	 * (also one made from the callbacks below) would be queued forever. */
+	evcon->retry_cnt = 0;
+
 	/*
 	 * User callback can do evhttp_make_request() on the same
 	 * evcon so new request will be added to evcon->requests.  To
